@@ -260,6 +260,8 @@ def run(chk, prog):
     # ---- the batch is closed whenever a line completes
     closing_action_controllers(chk, prog, tr, 'C11.batch-closed-whenever-opened')
 
+    closed_batch_is_delivered(chk, prog, tr, ci)
+
     RE = 'C11.batch-opened-once-per-continue'
     chk.rule(RE, 'In continue_internal start_variable_observation (which empties the set of changed names) runs only when '
              'async_continue_active was false at entry, i.e. when a continue starts - not when a time-limited continue is '
@@ -374,3 +376,43 @@ def closing_action_controllers(chk, prog, tr, RF):
                    'completed line leaves VariablesState in batch mode - its observers are told nothing, and a later '
                    'set_variable from the host is recorded silently' % ((foreign[0][1] if foreign else ''),),
                    foreign[0][0] if foreign else ci.loc(cb))
+
+
+def closed_batch_is_delivered(chk, prog, tr, ci):
+    """Found by a seed-writing sub-agent in passing (batch 13): the no-handler error exit sat between close and delivery."""
+    R = 'C11.closed-batch-is-delivered'
+    chk.rule(R, 'complete_variable_observation closes the batch and hands over the changed names - after it they exist nowhere '
+             'else. So in continue_internal every path from that call to a return, the error returns included, passes the '
+             'start of a delivery loop (an iteration over the value it returned) - otherwise the changes a continue committed '
+             'are never reported to their observers when the call ends in Err (no error handler installed).')
+    if ci is None:
+        return
+    from analysis.defuse import full_lineage
+    g = cfg(ci)
+    closes = [bb for bb, t in ci.calls() if callee_short(t) == 'VariablesState::complete_variable_observation']
+    if not chk.anchor(R, 'complete_variable_observation in continue_internal', closes):
+        return
+    starts = []
+    for bb, t in ci.calls():
+        nm = callee_short(t).rsplit('::', 1)[-1]
+        if nm in ('into_iter', 'iter', 'drain', 'for_each', 'into_keys', 'into_values', 'keys') and t['args']:
+            at = full_lineage(prog, ci, t['args'][0])
+            if any('complete_variable_observation' in a for a in at):
+                starts.append(bb)
+    if not chk.anchor(R, 'a delivery loop over the names handed over by complete_variable_observation', starts):
+        return
+    # `if let Some(changed) = handed_over { for .. }`: the test of the Option that holds the names is the entry of the
+    # delivery (its None side is the case in which nothing was closed by this call)
+    for bb, si, st in ci.stmts():
+        if st['k'] == 'assign' and st['rv']['k'] == 'discr' and any(
+                'complete_variable_observation' in a for a in tr.prov_place(ci, st['rv']['pl'])):
+            if any(g.path([bb], lambda b, s_=s_: b == s_) for s_ in starts):
+                starts.append(bb)
+    for i, cb in enumerate(closes):
+        w = g.path(g.succ[cb], lambda b: b in g.returns, avoid=starts)
+        chk.decide(R, chk.key(R, 'continue_internal', 'close#%d' % i), w is None,
+                   'every path from the close of the batch to a return starts a delivery loop',
+                   'continue_internal can return after complete_variable_observation has closed the batch without delivering '
+                   'the changed names (a return between the close and the notification loop - the error exit taken when no '
+                   'error handler is installed): variables this continue committed are never reported to their observers',
+                   ci.loc(w[-1]) if w else ci.loc(cb), {'witness_blocks': w})
